@@ -152,6 +152,8 @@ class Gen(object):
             m["mood"] = r.choice(MOODS)
             if m["mood"] == "":
                 m["mood"] = "empty"
+            if r.random() < p.get("badmood", 0):
+                m["mood"] = r.choice(["#[1]", "#{}"])
         elif ty == "bind":
             m["appid"] = r.choice(p["apps"]); m["side"] = r.choice(p["sides"])
         if p["with_ids"] and r.random() < 0.5 and m["id"] == ABSENT:
@@ -416,6 +418,8 @@ def run_scripted(rng, drv, profile, tid):
             m = msg0(type="release", nameplate=rng.choice([ABSENT, cl.np or ABSENT]))
         elif op == "close":
             m = msg0(type="close", mailbox=rng.choice([ABSENT, cl.mbox or ABSENT]), mood=rng.choice(moods))
+            if rng.random() < p.get("badmood", 0):
+                m["mood"] = rng.choice(["#[1]", "#{}"])
         elif op == "list":
             m = msg0(type="list")
         return m
@@ -526,3 +530,25 @@ def run_scripted(rng, drv, profile, tid):
             do(ev0("Cmd", c=c2, m=msg0(type="open", mailbox=i)))
             do(ev0("Drop", c=c2))
     return obs_list
+
+
+def quiesce(drv, do):
+    """everybody leaves; the clock passes EXP + 2 periods with the sweeps running"""
+    if not drv.up:
+        do(ev0("Start"))
+    for c in drv.conn_names:
+        if c in drv.protos:
+            do(ev0("Drop", c=c))
+    exp = drv.to_ticks(drv.m["tap"].CHANNEL_EXPIRATION_TIME)
+    per = drv.to_ticks(drv.period_secs)
+    target = drv.now_ticks() + exp + 2 * per
+    guard = 0
+    while drv.now_ticks() < target and guard < 200:
+        guard += 1
+        now = drv.now_ticks()
+        if now >= drv.next_sweep:
+            do(ev0("Sweep"))
+        else:
+            do(ev0("Advance", d=min(drv.next_sweep - now, target - now)))
+    if drv.now_ticks() >= drv.next_sweep:
+        do(ev0("Sweep"))
